@@ -18,6 +18,12 @@ import (
 	"context"
 	"errors"
 	"fmt"
+	"go/ast"
+	"go/parser"
+	"go/token"
+	"os"
+	"path/filepath"
+	"sort"
 	"regexp"
 	"runtime"
 	"strconv"
@@ -28,6 +34,7 @@ import (
 	"time"
 
 	"go.sia.tech/core/consensus"
+	rhp2 "go.sia.tech/core/rhp/v2"
 	"go.sia.tech/core/types"
 	"go.sia.tech/hostd/v2/host/contracts"
 	"go.sia.tech/hostd/v2/internal/verifh/vhlib"
@@ -51,6 +58,35 @@ type fakeStore struct {
 	mu   sync.Mutex
 	clsM map[types.FileContractID]string // ok | nf | bad | win | max
 	clsV map[types.FileContractID]string // ok | nf | rn
+	// what the lock users (CheckIntegrity / V2CheckIntegrity) find after they
+	// locked the contract: ok (revision consistent with the cached roots) | cnt
+	// (number of roots differs from Filesize/SectorSize) | mrk (count right,
+	// MetaRoot(roots) != FileMerkleRoot)
+	clsB  map[types.FileContractID]string
+	clsB2 map[types.FileContractID]string
+	roots map[types.FileContractID][]types.Hash256 // the cached sector roots (0 or 1 root)
+}
+
+// shape sets file size and Merkle root of a revision relative to the cached roots.
+func shape(body string, roots []types.Hash256) (filesize uint64, root types.Hash256) {
+	filesize = uint64(len(roots)) * rhp2.SectorSize
+	root = rhp2.MetaRoot(roots)
+	switch body {
+	case "cnt":
+		filesize += rhp2.SectorSize
+	case "mrk":
+		root[0] ^= 0x5a
+		root[7] |= 1
+	}
+	return
+}
+
+// fakeStorage: every sector is missing (the integrity check reports it on its
+// result channel; the lock is not involved any more at that point).
+type fakeStorage struct{ contracts.StorageManager }
+
+func (fakeStorage) ReadSector(types.Hash256) (*[rhp2.SectorSize]byte, error) {
+	return nil, errors.New("sector not found")
 }
 
 func (s *fakeStore) SectorRoots() (map[types.FileContractID][]types.Hash256, error) {
@@ -63,10 +99,11 @@ func (s *fakeStore) V2SectorRoots() (map[types.FileContractID][]types.Hash256, e
 
 func (s *fakeStore) Contract(id types.FileContractID) (contracts.Contract, error) {
 	s.mu.Lock()
-	cls := s.clsM[id]
+	cls, body, roots := s.clsM[id], s.clsB[id], s.roots[id]
 	s.mu.Unlock()
 	c := contracts.Contract{Status: contracts.ContractStatusActive}
 	c.Revision.ParentID = id
+	c.Revision.Filesize, c.Revision.FileMerkleRoot = shape(body, roots)
 	c.Revision.WindowStart = 100000
 	c.Revision.RevisionNumber = 7
 	switch cls {
@@ -84,9 +121,10 @@ func (s *fakeStore) Contract(id types.FileContractID) (contracts.Contract, error
 
 func (s *fakeStore) V2Contract(id types.FileContractID) (contracts.V2Contract, error) {
 	s.mu.Lock()
-	cls := s.clsV[id]
+	cls, body, roots := s.clsV[id], s.clsB2[id], s.roots[id]
 	s.mu.Unlock()
 	c := contracts.V2Contract{ID: id, Status: contracts.V2ContractStatusActive}
+	c.Filesize, c.FileMerkleRoot = shape(body, roots)
 	c.ProofHeight = 100000
 	c.ExpirationHeight = 100100
 	switch cls {
@@ -151,6 +189,9 @@ func isActive(state string) bool {
 	switch state {
 	case "running", "runnable", "preempted", "copystack":
 		return true
+	case "sleep":
+		// the checker goroutine of CheckIntegrity sleeps 1ms per sector; its timer will make it runnable
+		return true
 	}
 	return false
 }
@@ -163,6 +204,7 @@ const (
 	resCtxErr
 	resFailed
 	resPanic
+	resDone // a lock user returned nil (it has released the lock itself)
 )
 
 type call struct {
@@ -204,8 +246,9 @@ type world struct {
 func cid(id int) types.FileContractID { return types.FileContractID{byte(id + 1)} }
 
 func newWorld(t *testing.T, tr *vhlib.Trace, threads, ids, procs int) *world {
-	st := &fakeStore{clsM: map[types.FileContractID]string{}, clsV: map[types.FileContractID]string{}}
-	cm, err := contracts.NewManager(st, nil, fakeChain{}, nil, nil)
+	st := &fakeStore{clsM: map[types.FileContractID]string{}, clsV: map[types.FileContractID]string{},
+		clsB: map[types.FileContractID]string{}, clsB2: map[types.FileContractID]string{}, roots: map[types.FileContractID][]types.Hash256{}}
+	cm, err := contracts.NewManager(st, fakeStorage{}, fakeChain{}, nil, nil)
 	if err != nil {
 		t.Fatal(err)
 	}
@@ -246,6 +289,16 @@ func (w *world) call(th *thread, c call) (r int32) {
 		var unlock func()
 		_, unlock, err = w.cm.LockV2Contract(cid(c.id))
 		th.unlockFn = unlock
+	case 'i':
+		_, _, err = w.cm.CheckIntegrity(c.ctx, cid(c.id))
+		if err == nil {
+			return resDone
+		}
+	case 'j':
+		_, _, err = w.cm.V2CheckIntegrity(c.ctx, cid(c.id))
+		if err == nil {
+			return resDone
+		}
 	}
 	switch {
 	case err == nil:
@@ -390,11 +443,11 @@ func (w *world) valid(acts []action) []action {
 		}
 		switch a.kind {
 		case 'l':
-			if used[a.t] || w.th[a.t].status != 'i' || a.id < 0 || a.id >= w.nids || !strings.ContainsRune("lmv", rune(a.via)) {
+			if used[a.t] || w.th[a.t].status != 'i' || a.id < 0 || a.id >= w.nids || !strings.ContainsRune("lmvij", rune(a.via)) {
 				continue
 			}
-			if a.via == 'v' {
-				a.pre = false
+			if a.via == 'v' || a.via == 'j' {
+				a.pre = false // the lock is taken with context.Background()
 			}
 			used[a.t] = true
 		case 'u':
@@ -444,7 +497,7 @@ func (w *world) burst(acts []action) outcome {
 			if a.pre {
 				cancel()
 			}
-			th.cancel, th.cable, th.canceled = cancel, a.via != 'v', a.pre
+			th.cancel, th.cable, th.canceled = cancel, a.via != 'v' && a.via != 'j', a.pre
 			th.status, th.id, th.via = 'w', a.id, a.via
 			th.busy.Store(true)
 			ctxs[a.t] = ctx
@@ -512,6 +565,8 @@ func (w *world) burst(acts []action) outcome {
 				o.rets[i], th.status = "e", 'i'
 			case resFailed:
 				o.rets[i], th.status = "f", 'i'
+			case resDone:
+				o.rets[i], th.status = "s", 'i'
 			default:
 				o.rets[i], th.status = "p", 'i'
 			}
@@ -548,6 +603,8 @@ func retWord(r string) string {
 		return "error"
 	case "f":
 		return "failed"
+	case "s":
+		return "done"
 	case "p":
 		return "panicked"
 	}
@@ -649,15 +706,38 @@ func (w *world) doSettle() {
 	w.tr.Line("settle", o.obs("ok"))
 }
 
-func (w *world) doCls(id int, m, v string) {
+func norm(s string, allowed ...string) string {
+	for _, a := range allowed {
+		if s == a {
+			return s
+		}
+	}
+	return "ok"
+}
+
+// doCls sets what the store / the roots cache answer for contract id:
+// m, v: lookup of Manager.Lock / LockV2Contract; b, b2: what CheckIntegrity /
+// V2CheckIntegrity find (ok | cnt | mrk); r: number of cached sector roots.
+func (w *world) doCls(id int, m, v, b, b2 string, r int) {
 	if id < 0 || id >= w.nids {
 		return
 	}
+	m, v = norm(m, "nf", "bad", "win", "max"), norm(v, "nf", "rn")
+	b, b2 = norm(b, "cnt", "mrk"), norm(b2, "cnt", "mrk")
+	if r != 1 {
+		r = 0
+	}
+	var roots []types.Hash256
+	if r == 1 {
+		roots = []types.Hash256{{0xaa, byte(id)}}
+	}
 	w.store.mu.Lock()
-	w.store.clsM[cid(id)] = m
-	w.store.clsV[cid(id)] = v
+	w.store.clsM[cid(id)], w.store.clsV[cid(id)] = m, v
+	w.store.clsB[cid(id)], w.store.clsB2[cid(id)] = b, b2
+	w.store.roots[cid(id)] = roots
 	w.store.mu.Unlock()
-	w.tr.Line(fmt.Sprintf("cls id=%d m=%s v=%s", id, m, v), "")
+	contracts.VerifSetSectorRoots(w.cm, cid(id), roots)
+	w.tr.Line(fmt.Sprintf("cls id=%d m=%s v=%s b=%s b2=%s r=%d", id, m, v, b, b2, r), "")
 }
 
 // doFinal: after all callers have returned and released, len(locks) must be 0
@@ -719,8 +799,8 @@ func genLock(r *vhlib.Rand, w *world, t int) action {
 	if w.nids > 1 && r.Chance(3, 10) {
 		id = 1
 	}
-	via := vhlib.Pick[byte](r, 'l', 'l', 'l', 'l', 'm', 'm', 'm', 'v', 'v', 'l')
-	pre := via != 'v' && r.Chance(1, 10)
+	via := vhlib.Pick[byte](r, 'l', 'l', 'l', 'l', 'm', 'm', 'm', 'v', 'v', 'l', 'i', 'i', 'j', 'j')
+	pre := via != 'v' && via != 'j' && r.Chance(1, 10)
 	return action{kind: 'l', t: t, id: id, via: via, pre: pre}
 }
 
@@ -811,6 +891,202 @@ func genRace(r *vhlib.Rand, w *world) ([]action, string) {
 	return acts, "generic"
 }
 
+// userPaths: the return paths of the lock users, as store / cache classes.
+var userPaths = []struct{ via byte; m, v, b, b2 string }{
+	{'i', "ok", "ok", "ok", "ok"}, {'i', "ok", "ok", "cnt", "ok"}, {'i', "ok", "ok", "mrk", "ok"},
+	{'i', "nf", "ok", "ok", "ok"}, {'i', "bad", "ok", "mrk", "ok"}, {'i', "win", "ok", "ok", "ok"}, {'i', "max", "ok", "cnt", "ok"},
+	{'j', "ok", "ok", "ok", "ok"}, {'j', "ok", "ok", "ok", "cnt"}, {'j', "ok", "ok", "ok", "mrk"},
+	{'j', "ok", "nf", "ok", "ok"}, {'j', "ok", "rn", "ok", "ok"}, {'j', "ok", "rn", "ok", "mrk"},
+}
+
+// probe: once nobody holds or waits for the contract it must be lockable at once.
+func (w *world) probe(id int) {
+	if w.dead {
+		return
+	}
+	for _, th := range w.th {
+		if th.status != 'i' && th.id == id {
+			return
+		}
+	}
+	idle, _, _ := w.classify()
+	if len(idle) == 0 {
+		return
+	}
+	t := idle[len(idle)-1]
+	w.doLock(t, id, 'l', false)
+	if !w.dead && w.th[t].status == 'h' {
+		w.doUnlock(t)
+	} else if !w.dead && w.th[t].status == 'w' {
+		w.doCancel(t)
+	}
+}
+
+// genUsers: the "lock users" family. Every exported Manager method that takes
+// a contract lock internally is called on a contract prepared to hit each of
+// its return paths - uncontended, after waiting for a holder, with a context
+// that ends while it waits - and after every return the contract is probed.
+func genUsers(t *testing.T, tr *vhlib.Trace, r *vhlib.Rand) {
+	procs := vhlib.Pick(r, 1, 1, 2)
+	w := newWorld(t, tr, 3, 2, procs)
+	defer w.close()
+	tr.Line(fmt.Sprintf("reset threads=3 ids=2 procs=%d", procs), "")
+	order := r.Intn(len(userPaths))
+	for k := range userPaths {
+		p := userPaths[(k+order)%len(userPaths)]
+		id := r.Intn(2)
+		for nroots := 0; nroots < 2 && !w.dead; nroots++ {
+			w.doCls(id, p.m, p.v, p.b, p.b2, nroots)
+			// 1. uncontended (also with a context that is already done: Lock takes the free lock anyway)
+			w.doLock(0, id, p.via, nroots == 1 && r.Chance(1, 2))
+			w.probe(id)
+			// 2. the contract is held; the user waits and is admitted by the release
+			w.doLock(1, id, vhlib.Pick[byte](r, 'l', 'm', 'v'), false)
+			if w.th[1].status != 'h' {
+				// the holder's own store lookup failed (classes nf/bad/...): take the raw lock instead
+				w.doLock(1, id, 'l', false)
+			}
+			w.doLock(0, id, p.via, false)
+			if r.Chance(1, 2) {
+				w.doLock(2, id, p.via, false) // a second user queues up
+			}
+			w.doUnlock(1)
+			w.probe(id)
+			// 3. the context ends while the user waits (CheckIntegrity only; V2CheckIntegrity cannot be cancelled)
+			if p.via == 'i' {
+				w.doLock(1, id, 'l', false)
+				w.doLock(0, id, p.via, false)
+				if r.Chance(1, 2) {
+					w.doCancel(0)
+					w.doUnlock(1)
+				} else {
+					w.doRace([]action{{kind: 'c', t: 0}, {kind: 'u', t: 1}}, "user_cancel_then_unlock")
+				}
+				w.probe(id)
+			}
+		}
+		tr.Count(fmt.Sprintf("userpath:%c:%s/%s/%s/%s", p.via, p.m, p.v, p.b, p.b2))
+	}
+	for k := 0; k < 12 && !w.dead; k++ {
+		_, holders, waiters := w.classify()
+		if len(holders) > 0 {
+			w.doUnlock(holders[0])
+		} else if len(waiters) > 0 && w.th[waiters[0]].cable {
+			w.doCancel(waiters[0])
+		} else {
+			break
+		}
+	}
+	w.doFinal()
+}
+
+// ---------------------------------------------------------------- the lock users of the source tree
+
+// doLockUsers lists every function of the scanned packages that acquires a
+// contract lock - a call `x.Lock(ctx, id)` (two arguments: not a mutex) or
+// `x.LockV2Contract(id)` - and the call edges of the package through which an
+// acquiring function is reached. The model's table `lockUsers` must name
+// exactly these (Drive/Lock.lean lockUsersStep): a new lock user is a mismatch.
+func doLockUsers(tr *vhlib.Trace) {
+	root := os.Getenv("VERIF_REPO")
+	if root == "" {
+		root = "/repo"
+	}
+	var sites, edges []string
+	for _, dir := range []string{"host/contracts", "rhp/v2", "rhp/v3", "api"} {
+		files, _ := filepath.Glob(filepath.Join(root, dir, "*.go"))
+		sort.Strings(files)
+		type fnInfo struct {
+			file    string
+			acq     int
+			line    int
+			callees map[string]bool
+		}
+		fns := map[string]*fnInfo{}
+		for _, f := range files {
+			base := filepath.Base(f)
+			if strings.HasSuffix(base, "_test.go") || strings.HasPrefix(base, "zz_verif") {
+				continue
+			}
+			fset := token.NewFileSet()
+			af, err := parser.ParseFile(fset, f, nil, 0)
+			if err != nil {
+				sites = append(sites, dir+"/"+base+":parse-error:1:0")
+				continue
+			}
+			for _, d := range af.Decls {
+				fd, ok := d.(*ast.FuncDecl)
+				if !ok || fd.Body == nil {
+					continue
+				}
+				fi := &fnInfo{file: base, callees: map[string]bool{}}
+				ast.Inspect(fd.Body, func(x ast.Node) bool {
+					if ce, ok := x.(*ast.CallExpr); ok {
+						switch fn := ce.Fun.(type) {
+						case *ast.SelectorExpr:
+							if (fn.Sel.Name == "Lock" && len(ce.Args) == 2) || (fn.Sel.Name == "LockV2Contract" && len(ce.Args) == 1) {
+								fi.acq++
+								if fi.line == 0 {
+									fi.line = fset.Position(ce.Pos()).Line
+								}
+							}
+							if fn.Sel.Name == "Lock" && len(ce.Args) != 2 {
+								break // sync.Mutex.Lock, not a call edge to a contract-locking function
+							}
+							fi.callees[fn.Sel.Name] = true
+						case *ast.Ident:
+							fi.callees[fn.Name] = true
+						}
+					}
+					return true
+				})
+				name := fd.Name.Name
+				if old := fns[name]; old != nil { // same method name on two receivers: merge
+					fi.acq += old.acq
+					if fi.line == 0 {
+						fi.line, fi.file = old.line, old.file
+					}
+					for c := range old.callees {
+						fi.callees[c] = true
+					}
+				}
+				fns[name] = fi
+			}
+		}
+		reaches := map[string]bool{}
+		for n, fi := range fns {
+			if fi.acq > 0 {
+				reaches[n] = true
+				sites = append(sites, fmt.Sprintf("%s/%s:%s:%d:%d", dir, fi.file, n, fi.acq, fi.line))
+			}
+		}
+		for changed := true; changed; {
+			changed = false
+			for n, fi := range fns {
+				if reaches[n] {
+					continue
+				}
+				for c := range fi.callees {
+					if reaches[c] && fns[c] != nil {
+						reaches[n] = true
+						changed = true
+					}
+				}
+			}
+		}
+		for n, fi := range fns {
+			for c := range fi.callees {
+				if fns[c] != nil && reaches[c] && c != n {
+					edges = append(edges, fmt.Sprintf("%s:%s>%s", dir, n, c))
+				}
+			}
+		}
+	}
+	sort.Strings(sites)
+	sort.Strings(edges)
+	tr.Line("lockusers", "list="+vhlib.FmtList(sites)+" edges="+vhlib.FmtList(edges))
+}
+
 func genHistory(t *testing.T, tr *vhlib.Trace, r *vhlib.Rand, n int) {
 	threads := 2 + r.Intn(3)
 	ids := 1 + r.Intn(2)
@@ -822,7 +1098,8 @@ func genHistory(t *testing.T, tr *vhlib.Trace, r *vhlib.Rand, n int) {
 		idle, holders, waiters := w.classify()
 		switch x := r.Intn(100); {
 		case x < 5:
-			w.doCls(r.Intn(ids), vhlib.Pick(r, "ok", "ok", "nf", "bad", "win", "max"), vhlib.Pick(r, "ok", "ok", "nf", "rn"))
+			w.doCls(r.Intn(ids), vhlib.Pick(r, "ok", "ok", "ok", "nf", "bad", "win", "max"), vhlib.Pick(r, "ok", "ok", "nf", "rn"),
+				vhlib.Pick(r, "ok", "cnt", "mrk"), vhlib.Pick(r, "ok", "cnt", "mrk"), r.Intn(2))
 		case x < 8:
 			w.doSettle()
 		case x < 38 && len(idle) > 0:
@@ -891,12 +1168,16 @@ func replay(t *testing.T, tr *vhlib.Trace, ops []vhlib.ParsedLine) {
 			tr.Line(fmt.Sprintf("reset threads=%d ids=%d procs=%d", th, ids, procs), "")
 			continue
 		}
+		if op.Op == "lockusers" {
+			doLockUsers(tr)
+			continue
+		}
 		if w == nil {
 			continue
 		}
 		switch op.Op {
 		case "cls":
-			w.doCls(op.Int("id"), op.Args["m"], op.Args["v"])
+			w.doCls(op.Int("id"), op.Args["m"], op.Args["v"], op.Args["b"], op.Args["b2"], op.Int("r"))
 		case "lock":
 			via := byte('l')
 			if v := op.Args["via"]; len(v) == 1 {
@@ -939,7 +1220,11 @@ func TestEngine(t *testing.T) {
 		return
 	}
 	r := vhlib.NewRand(cfg.Seed)
+	doLockUsers(tr)
 	for i := 0; i < cfg.N && hangs < maxHangs; i++ {
+		if i%100 == 0 {
+			genUsers(t, tr, r) // the lock-users sweep, first and then every 100 histories
+		}
 		genHistory(t, tr, r, cfg.Len)
 	}
 }
